@@ -664,6 +664,64 @@ def keys_unique__twin(e01: bool, e02: bool, e12: bool, same_names: bool, n: int)
     return not keys_unique(e01, e02, e12, same_names, n)
 
 
+def exec_models(e01: bool, m0: bool, m1: bool, m2: bool, rev: bool, s0: int) -> bool:
+    """
+    execute_workflow on t0, t1 -> t2 (and optionally t0 -> t1) where a task may take a (real, empty) Model as its
+    second static input: the dispatched workflow evaluates to the reference value, i.e. the join task receives the
+    results of its predecessors in the declared order whichever of them take a model.  Flags are fixed per path; the
+    workflow code then runs outside tracing.
+    pre: -1 <= s0 <= 1
+    post: _ == True
+    """
+    try:
+        from crosshair.tracers import NoTracing
+    except ImportError:
+        import contextlib
+        NoTracing = contextlib.nullcontext
+    args = tuple(bool(_pick(1 if b else 0, 0, 2)) for b in (e01, m0, m1, m2, rev)) + (_pick(s0, -1, 2),)
+    with NoTracing():
+        return _exec_models(*args)
+
+
+def _exec_models(e01, m0, m1, m2, rev, s0):
+    from pharmpy.model import Model
+    _fresh()
+    mdl = Model()
+    calls = []
+
+    def mk(i):
+        def f(*a):
+            calls.append(i)
+            return (i, tuple('M' if isinstance(x, Model) else x for x in a))
+        return f
+    flags = (m0, m1, m2)
+    tasks = [Task(f't{i}', mk(i), *((s0 + i, mdl) if flags[i] else (s0 + i,))) for i in range(3)]
+    wb = WorkflowBuilder(name='wfm')
+    wb.add_task(tasks[0])
+    wb.add_task(tasks[1], predecessors=[tasks[0]] if e01 else None)
+    preds = [tasks[1], tasks[0]] if rev else [tasks[0], tasks[1]]
+    wb.add_task(tasks[2], predecessors=preds)
+    wf = Workflow(wb)
+    disp = _Dispatcher()
+    got = X.execute_workflow(wf, dispatcher=disp, context=7)
+
+    def stat(i):
+        return (s0 + i, 'M') if flags[i] else (s0 + i,)
+    v0 = (0, stat(0))
+    v1 = (1, stat(1) + ((v0,) if e01 else ()))
+    # predecessor results in the order the predecessors entered the workflow (t0 before t1)
+    want = (2, stat(2) + (v0, v1))
+    return got == want and sorted(calls) == [0, 1, 2]
+
+
+def exec_models__twin(e01: bool, m0: bool, m1: bool, m2: bool, rev: bool, s0: int) -> bool:
+    """
+    pre: -1 <= s0 <= 1
+    post: _ == True
+    """
+    return not exec_models(e01, m0, m1, m2, rev, s0)
+
+
 def _pick(x, lo, hi):
     while hi - lo > 1:
         mid = (lo + hi) // 2
